@@ -25,7 +25,7 @@ def main():
     bad = 0
     for d in dirs:
         name = os.path.basename(d.rstrip('/'))
-        pf = os.path.join(d, 'patch.diff')
+        pf = os.path.abspath(os.path.join(d, 'patch.diff'))
         if not os.path.exists(pf):
             continue
         r = sh('git -C /repo apply %s' % pf)
